@@ -646,6 +646,24 @@ def run(prog, rep, tier):
                                   "a negative offset with non-zero minutes comes out wrong (-03:30 becomes -02:30, -00:45 becomes +00:45)" % (fb_.path.split("::")[-1], c.line, len(ts_), sum(signed)))
     rep.examined(R148, "fixedoffset-arithmetic-sites", nontrivial=False, sample={"FixedOffset constructor calls with a computed argument": n148})
 
+    # ------------------------------------------------------------ R14.10 fractional seconds of a filter value are read positionally
+    # process_dt hands the user's text to chrono unchanged.  chrono's bare `%f` is an integer count of
+    # nanoseconds (".5" = 5 ns), not a decimal fraction; only `%3f/%6f/%9f` (fixed width, after a literal
+    # '.') and `%.f/%.3f/%.6f/%.9f` (dot included) read ".500" as half a second.  A row with `.%f` turns
+    # `-a 20200304T100001.500` into 10:00:01.000000500 - silently, exit 0.
+    R1410 = rep.rule("R14.10", "no filter-pattern row reads fractional seconds with chrono's integer-nanosecond %f")
+    import re as _re
+    for ri, row in enumerate(rows):
+        pat_ = row[0]
+        specs = _re.findall(r"%(?:[-_0^#:.]*\d*)[A-Za-z%+]", pat_)
+        bad = [m.start() for m in _re.finditer(r"%f", pat_)]
+        rep.examined(R1410, "s4::CLI_FILTER_PATTERNS|%s" % pat_, nontrivial=bool(_re.search(r"\df|\.f", pat_)) or bool(bad), sample={"row": ri, "pattern": pat_, "fraction_specifiers": [x for x in specs if x.endswith("f")]})
+        if bad:
+            rep.violation(R1410, "s4::CLI_FILTER_PATTERNS|%s|bare-%%f" % pat_, "CLI_FILTER_PATTERNS row %d %r uses chrono's bare %%f, which reads the digits as an integer number of nanoseconds: "
+                          "`.500` becomes 500 ns instead of half a second, so a sub-second window bound in this spelling collapses to the whole second" % (ri, pat_))
+    if len(rows) < 40:
+        raise CheckerError("R14.10: CLI_FILTER_PATTERNS has only %d rows (expected >= 40)" % len(rows))
+
     return rep.finish(
         "Static necessary-condition check of the CLI datetime-filter path: the relative-offset grammar is anchored (regular-language analysis of "
         "the const-evaluated pattern), a bare date is completed to 00:00:00 in value and pattern together, zone-less values are parsed in the "
